@@ -34,7 +34,7 @@ def build_shim():
         core.sh(["gcc", "-O2", "-shared", "-fPIC", "-o", SHIM, src, "-ldl", "-lpthread"])
 
 
-def run_workload(wdir, seed, wargs, gen=0, first_txn=1, timeout=120):
+def run_workload(wdir, seed, wargs, gen=0, first_txn=1, timeout=120, env_extra=None):
     """runs storage_run under the recorder; returns (ops, meta)"""
     os.makedirs(wdir, exist_ok=True)
     db = os.path.join(wdir, "db")
@@ -44,10 +44,16 @@ def run_workload(wdir, seed, wargs, gen=0, first_txn=1, timeout=120):
         if os.path.exists(p):
             os.remove(p)
     env = dict(os.environ, FSREC_ROOT=db, FSREC_LOG=log, LD_PRELOAD=SHIM, RUST_BACKTRACE="0")
+    env.update(env_extra or {})
     cmd = [core.bin_path("storage_run"), "--dir", db, "--meta", meta, "--seed", str(seed), "--gen", str(gen),
            "--first-txn", str(first_txn)] + [str(a) for a in wargs]
-    p = subprocess.run(cmd, env=env, stdout=subprocess.PIPE, stderr=subprocess.STDOUT, timeout=timeout, text=True,
-                       errors="replace")
+    try:
+        p = subprocess.run(cmd, env=env, stdout=subprocess.PIPE, stderr=subprocess.STDOUT, timeout=timeout, text=True,
+                           errors="replace")
+    except subprocess.TimeoutExpired:
+        if env_extra:
+            return None, {"hang": True}
+        raise
     if not os.path.exists(meta):
         return None, {"driver_failed": (p.stdout or "")[-1500:], "exit": p.returncode}
     return fsimage.parse_log(log), json.load(open(meta))
@@ -410,6 +416,167 @@ def run_sweep(ctx, n_workloads, budget, models, gen2=0):
                                                                                  " ".join(r["args"]), r["seed"], v["detail"][:300]))
     core.log("[sweep] %s: %s" % (ctx.pid, json.dumps(tot)))
     validate_traces(ctx, results)
+    return tot
+
+
+FAULT_TARGETS = [("write", "wal/"), ("fsync", "wal/"), ("write", "sstables/"), ("fsync", "sstables/"), ("write", "manifest/"),
+                 ("fsync", "manifest/"), ("rename", "manifest/"), ("open", "wal/"), ("open", "sstables/"), ("write", "vlog/"),
+                 ("fsync", "vlog/"), ("unlink", "wal/")]
+FAULT_ERRS = ["5", "28", "short=3", "short=0"]      # EIO, ENOSPC, short writes
+OPNAME = {fsimage.WRITE: "write", fsimage.FSYNC: "fsync", fsimage.RENAME: "rename", fsimage.OPEN: "open",
+          fsimage.UNLINK: "unlink", fsimage.FTRUNC: "ftruncate"}
+
+
+def fault_workload(task):
+    """C15: one workload, many runs with one injected file-system failure each (position x kind x transient/persistent);
+    after every run: nothing of a failed commit is visible, and the directory as it is at the end / right after the fault,
+    reopened after a process crash or a power loss, holds every acknowledged transaction and nothing of a failed one."""
+    import random
+    wid, seed, wargs, nfaults, keep_dir = task[:5]
+    fixed_specs = task[5] if len(task) > 5 else None
+    base = os.path.join(scratch(), "fault-%d-%d" % (os.getpid(), wid))
+    shutil.rmtree(base, ignore_errors=True)
+    out = {"wid": wid, "seed": seed, "args": wargs, "violations": [], "runs": 0, "fired": 0, "images": 0, "failed_commits": 0,
+           "sticky_after": 0, "targets": {}}
+    rng = random.Random(seed)
+    try:
+        ops, meta = run_workload(os.path.join(base, "clean"), seed, wargs)
+        if ops is None:
+            out["tool_error"] = "baseline workload failed: %s" % json.dumps(meta)[:300]
+            return out
+        counts = {}
+        for o in ops:
+            name = OPNAME.get(o.op)
+            if not name:
+                continue
+            for (op, sub) in FAULT_TARGETS:
+                if op == name and sub in o.p1:
+                    counts[(op, sub)] = counts.get((op, sub), 0) + 1
+        targets = [t for t in FAULT_TARGETS if counts.get(t)]
+        for i in range(len(fixed_specs) if fixed_specs else nfaults):
+            if fixed_specs:
+                spec = fixed_specs[i]
+                op, sub = spec.split(":")[1], spec.split(":")[2]
+                sticky = spec.endswith(":sticky")
+            else:
+                op, sub = targets[i % len(targets)]
+                n = rng.randint(1, counts[(op, sub)])
+                err = rng.choice(FAULT_ERRS if op == "write" else FAULT_ERRS[:2])
+                sticky = rng.random() < 0.3
+                spec = "%d:%s:%s:%s%s" % (n, op, sub, err, ":sticky" if sticky else "")
+            wdir = os.path.join(base, "f%d" % i)
+            ops2, meta2 = run_workload(wdir, seed, wargs, timeout=90, env_extra={"FSREC_FAIL": spec})
+            out["runs"] += 1
+            sig = {"fault_op": op, "fault_path": sub.rstrip("/"), "persistent": sticky}
+            if ops2 is None:
+                if meta2.get("hang"):
+                    out["violations"].append(dict(sig, **{"class": "store_hangs_after_fault", "detail": "workload with %s did not finish within 90 s" % spec, "spec": spec}))
+                else:
+                    out["violations"].append(dict(sig, **{"class": "panic_or_abort_after_fault", "spec": spec,
+                                                          "detail": "workload with %s died: %s" % (spec, json.dumps(meta2)[-400:])}))
+                continue
+            if meta2.get("open_failed"):
+                continue
+            fault_tickets = [o.ticket for o in ops2 if o.op == fsimage.FAULT]
+            if not fault_tickets:
+                continue
+            out["fired"] += 1
+            out["targets"]["%s %s" % (op, sub)] = out["targets"].get("%s %s" % (op, sub), 0) + 1
+            mk = fsimage.marks(ops2)
+            failed = {t["txn"] for t in meta2["txns"] if not t["ok"]}
+            out["failed_commits"] += len(failed)
+            for ev in mk:
+                if ev.get("ev") == "violation":
+                    out["violations"].append(dict(sig, **{"class": ev.get("kind"), "spec": spec, "detail": json.dumps(ev)[:300]}))
+            states, _ = states_of(meta2)
+            last = ops2[-1].ticket
+            # crash instants: when no commit is in flight (right after an acknowledgement or a reported failure), from the
+            # fault on - a commit that is still running when the crash comes may legitimately be there or not
+            quiet = [ev["ticket"] for ev in mk if ev.get("ev") in ("commit_ack", "commit_err") and ev["ticket"] > fault_tickets[0]]
+            tickets = sorted(set(quiet[:3] + rng.sample(quiet, min(3, len(quiet))) + quiet[-1:]))
+            failed_at = {ev["txn"]: ev["ticket"] for ev in mk if ev.get("ev") == "commit_err"}
+            begun_at = {ev["txn"]: ev["ticket"] for ev in mk if ev.get("ev") == "commit_begin"}
+            logged_ok = {}
+            for t, tk in failed_at.items():
+                b = begun_at.get(t, tk)
+                window = [x for x in ops2 if b < x.ticket < tk]
+                first_fault = min([x.ticket for x in window if x.op == fsimage.FAULT] or [tk])
+                # its record reached the log (and, if asked for, the disk) before anything failed
+                wrote = [x.ticket for x in window if x.op == fsimage.WRITE and "/wal/" in x.p1 and x.ticket < first_fault]
+                cut = [x.ticket for x in window if x.op == fsimage.FTRUNC and "/wal/" in x.p1]
+                logged_ok[t] = bool(wrote) and not any(c > wrote[0] for c in cut)
+            fs = fsimage.FsState(os.path.join(wdir, "db"))
+            for o in ops2:
+                fs.apply(o)
+                if o.ticket not in tickets:
+                    continue
+                acked, synced, started = bounds(meta2, mk, o.ticket, 1)
+                for model in ("process", "synced"):
+                    img = os.path.join(base, "img")
+                    shutil.rmtree(img, ignore_errors=True)
+                    fs.materialize(img, model, seed=seed * 7 + o.ticket)
+                    res = reopen(img, meta2["opts"])
+                    out["images"] += 1
+                    lo = acked if model == "process" else synced
+                    verdicts = judge(res, states, lo, started)
+                    if verdicts and res.get("open") == "ok":
+                        # is what came back the history WITH the commits that had reported a failure by then?
+                        # (those whose record stayed in the log: a failure while logging is rolled back since the repair)
+                        gone = sorted(t for t, tk in failed_at.items() if tk <= o.ticket and logged_ok.get(t))
+                        meta3 = dict(meta2, txns=[dict(t, ok=True) if t["txn"] in gone else t for t in meta2["txns"]])
+                        states3, _ = states_of(meta3)
+                        if gone and any(states3[k] == res["scan"] for k in range(lo, min(started, len(states3) - 1) + 1)):
+                            # which phase did the failing commits fail in? after their record was completely logged (a
+                            # rotation that fails inside apply) or while it was being logged
+                            phase = "apply"
+                            verdicts = [("C15", "failed_commit_replayed_after_reopen",
+                                         "transactions %s reported an error (phase %s) and are back after the reopen" % (gone[:5], phase))]
+                            sig = dict(sig, phase=phase)
+                    for prop, cls, detail in verdicts:
+                        out["violations"].append(dict(sig, **{"class": cls, "detail": "[%s, ticket %d of %d, %s] %s" % (model, o.ticket, last, spec, detail[:300]),
+                                                              "spec": spec, "model": "power" if model != "process" else "process"}))
+                    shutil.rmtree(img, ignore_errors=True)
+            shutil.rmtree(wdir, ignore_errors=True)
+    except Exception as e:
+        import traceback
+        out["tool_error"] = "%s: %s %s" % (type(e).__name__, e, traceback.format_exc()[-300:])
+    finally:
+        shutil.rmtree(base, ignore_errors=True)
+    return out
+
+
+def fault_sweep(ctx, n_workloads, nfaults):
+    core.build_harness(["storage_run", "crash_reopen"])
+    build_shim()
+    tasks = [(i, ctx.seed * 2000 + i, WORKLOADS[i % len(WORKLOADS)], nfaults, None) for i in range(n_workloads)]
+    results = []
+    with ProcessPoolExecutor(max_workers=min(12, len(tasks))) as ex:
+        for r in ex.map(fault_workload, tasks):
+            results.append(r)
+    for r in results:
+        if r.get("tool_error"):
+            raise core.ToolError("fault sweep worker failed: %s" % r["tool_error"])
+    tot = {k: sum(r[k] for r in results) for k in ("runs", "fired", "images", "failed_commits")}
+    tg = {}
+    for r in results:
+        for k, v in r["targets"].items():
+            tg[k] = tg.get(k, 0) + v
+    tot["targets"] = tg
+    if tot["fired"] == 0:
+        raise core.ToolError("no injected fault fired")
+    ctx.cov["fault_sweep"] = tot
+    ctx.cov["traces_validated_against_impl"] += tot["images"]
+    for r in results:
+        seen = {}
+        for v in r["violations"]:
+            key = (v["class"], v["fault_op"], v["fault_path"])
+            seen[key] = seen.get(key, 0) + 1
+            if seen[key] > 2:
+                continue
+            sig = {"class": v["class"], "fault": v.get("phase") or "io", "fault_op": v["fault_op"], "fault_path": v["fault_path"]}
+            ctx.violation({"driver": "fault_sweep", "seed": r["seed"], "args": r["args"], "spec": v.get("spec")}, sig,
+                          "%s after an injected %s failure on %s: %s" % (v["class"], v["fault_op"], v["fault_path"], v["detail"][:300]))
+    core.log("[faults] %s: %s" % (ctx.pid, json.dumps(tot)))
     return tot
 
 
